@@ -23,7 +23,9 @@ type Ref struct {
 //	rep   build the report of object Obj in language Lang into report slot Dst
 //	exp   export report Rep with template Tmpl, Via "str" or "rd" (reader with script Fault)
 //	lkp   table lookup Fn(SArg|IArg, Lang)
-//	twin  (C15) decode a fresh twin of object Obj and compare all observations
+//	redec decode Vec again on the receiver of slot Obj (re-used receiver)
+//	set   assign exported field number IArg of object Obj: the value of the same field of Donor, or the invalid value
+//	twin  (C15) rebuild object Obj from scratch (same decodes and assignments, no queries) and compare all observations
 //	flt   (C12) reset exported field Field of object Obj to its zero (unknown/invalid) value
 //	nils  (C12) all observers on the typed nil receivers of all six kinds
 //	fresh (C12) all observers on fresh constructor results of all six kinds
@@ -37,6 +39,7 @@ type Op struct {
 	Obj     *Ref   `json:"obj,omitempty"`
 	LB      bool   `json:"lb,omitempty"`
 	Rep     *Ref   `json:"rep,omitempty"`
+	Donor   *Ref   `json:"donor,omitempty"`
 	Obs     string `json:"obs,omitempty"`
 	Lang    int    `json:"lang,omitempty"`
 	Tmpl    string `json:"tmpl,omitempty"`
